@@ -308,6 +308,9 @@ class Engine:
                 node = None
             if node is not None:
                 decs = [ast.unparse(d).split("(")[0].split(".")[-1] for d in node.decorator_list]
+                if any(isinstance(x, (ast.Yield, ast.YieldFrom)) for x in ast.walk(node)):
+                    # a generator function: calling it runs none of its body, it returns a NEW generator object (opaque global)
+                    return None
                 if not decs:
                     return Fn(name, node=node, closure={})
                 if all(d in ("lru_cache", "cache") for d in decs):
@@ -956,6 +959,9 @@ class Engine:
                         raise Unsupported(f"cannot pack {it} as {k}")
                     parts.append(it.t)
                 return ts.ctor(*parts)
+            h = self.method_models.get("__ill_typed_store__")
+            if h is not None:
+                return h(self, st, sort, kind, v)
             raise Unsupported(f"cannot pack {v} as {kind}")
         if kind == "u":
             return self.as_u(st, v)
